@@ -41,8 +41,8 @@ Qed.
 (* ---- the initial state ---- *)
 Definition kof (sc : scenario) (u : Z) : lconst :=
   match find (fun x => d_uid x =? u) (concat (sc_batches sc)) with
-  | Some x => mkK (d_fault x) (mem u (named sc)) (d_to x)
-  | None => mkK FNone (mem u (named sc)) false
+  | Some x => mkK (d_fault x) (mem u (named sc)) (d_to x) (d_stub x)
+  | None => mkK FNone (mem u (named sc)) false false
   end.
 
 Lemma concat_filter_nonempty {A} (l : list (list A)) : concat (filter nonempty l) = concat l.
@@ -69,7 +69,7 @@ Proof.
   - rewrite HP. intros x Hx Eu. unfold kof.
     destruct (find (fun x0 => d_uid x0 =? u) (concat (sc_batches sc))) as [x'|] eqn:EF.
     + apply find_some in EF as [Hx' E']. apply Z.eqb_eq in E'.
-      assert (x' = x) by (apply (nodup_map_inj d_uid _ _ _ ND Hx' Hx); congruence). subst x'. split; reflexivity.
+      assert (x' = x) by (apply (nodup_map_inj d_uid _ _ _ ND Hx' Hx); congruence). subst x'. repeat split; reflexivity.
     + exfalso. apply (find_none _ _ EF) in Hx. apply Z.eqb_neq in Hx. contradiction.
   - intros En HI. unfold cpending, init in HI. fields. cbn [app] in HI. rewrite app_nil_r in HI.
     assert (Hn : k_named (kof sc u) = mem u (named sc)) by (unfold kof; destruct (find _ _); reflexivity).
